@@ -306,7 +306,7 @@ func parseRule(t string) (*rule, error) {
 	}
 	switch r.kind {
 	case "cutu", "cutd", "rstu", "rstd", "freeze", "stop", "kill", "term", "pause", "blackout", "refuse", "cutall",
-		"lose", "delay", "killall":
+		"lose", "delay", "killall", "extinct":
 	default:
 		return nil, fmt.Errorf("bad rule kind %q", t)
 	}
@@ -392,6 +392,38 @@ func freePort() int {
 	return l.Addr().(*net.TCPAddr).Port
 }
 
+// listens reports whether process pid holds a listening TCP socket on 127.0.0.1:port
+// (Linux /proc; true when /proc cannot be read). It closes the window between picking
+// a free port and the component binding it: a connect test alone could reach a
+// listener of a concurrently running scenario.
+func listens(pid, port int) bool {
+	tcp, err := ioutil.ReadFile(fmt.Sprintf("/proc/%d/net/tcp", pid))
+	if err != nil {
+		return true
+	}
+	want := fmt.Sprintf("0100007F:%04X", port)
+	inodes := map[string]bool{}
+	for _, l := range strings.Split(string(tcp), "\n") {
+		f := strings.Fields(l)
+		if len(f) > 9 && f[1] == want && f[3] == "0A" {
+			inodes["socket:["+f[9]+"]"] = true
+		}
+	}
+	if len(inodes) == 0 {
+		return false
+	}
+	fds, err := ioutil.ReadDir(fmt.Sprintf("/proc/%d/fd", pid))
+	if err != nil {
+		return true
+	}
+	for _, fd := range fds {
+		if t, err := os.Readlink(fmt.Sprintf("/proc/%d/fd/%s", pid, fd.Name())); err == nil && inodes[t] {
+			return true
+		}
+	}
+	return false
+}
+
 func waitTCP(addr string, d time.Duration) bool {
 	end := time.Now().Add(d)
 	for time.Now().Before(end) {
@@ -436,7 +468,7 @@ func runScenario(sp *spec) string {
 	for try := 0; ; try++ {
 		srvPort = freePort()
 		lnr, err = sfserver.NewSnowflakeServer(nil).Listen(&net.TCPAddr{IP: net.IPv4(127, 0, 0, 1), Port: srvPort})
-		if err == nil && waitTCP(fmt.Sprintf("127.0.0.1:%d", srvPort), 5*time.Second) {
+		if err == nil && waitTCP(fmt.Sprintf("127.0.0.1:%d", srvPort), 5*time.Second) && listens(os.Getpid(), srvPort) {
 			break
 		}
 		if lnr != nil {
@@ -550,7 +582,7 @@ func (s *scen) startBroker() error {
 				continue
 			default:
 			}
-			if waitTCP(addr, 100*time.Millisecond) {
+			if waitTCP(addr, 100*time.Millisecond) && listens(cmd.Process.Pid, port) {
 				ok = true
 				break
 			}
@@ -701,11 +733,15 @@ func (s *scen) procAction(r *rule, rc *rconn) {
 		time.Sleep(time.Duration(r.b) * time.Millisecond)
 		s.signalProxy(idx, syscall.SIGCONT)
 		s.logp("proxy %d continued", idx)
-	case "blackout", "killall":
+	case "blackout", "killall", "extinct":
 		live := s.liveProxies()
 		s.note(r, fmt.Sprintf("/%d-proxies", len(live)))
 		for _, i := range live {
 			s.signalProxy(i, syscall.SIGKILL)
+		}
+		if r.kind == "extinct" {
+			// no proxy ever again: the stream may only stall or end
+			return
 		}
 		if r.kind == "blackout" {
 			time.Sleep(time.Duration(r.b) * time.Millisecond)
@@ -745,7 +781,7 @@ func (s *scen) timeRules(t0 time.Time) {
 			s.endDisturb()
 		case "refuse":
 			s.relay.refuse(r, time.Duration(r.b)*time.Millisecond)
-		case "blackout", "killall":
+		case "blackout", "killall", "extinct":
 			go s.procAction(r, nil)
 		case "kill", "stop", "term", "pause", "freeze":
 			rc := s.relay.currentCarrier()
@@ -1004,7 +1040,7 @@ func (r *relay) forward(rc *rconn, up bool, dst net.Conn, p []byte) bool {
 			rc.mu.Unlock()
 			for _, ru := range r.rulesFor(rc.carrier) {
 				switch ru.kind {
-				case "freeze", "stop", "kill", "term", "pause", "blackout", "killall", "refuse", "cutall":
+				case "freeze", "stop", "kill", "term", "pause", "blackout", "killall", "extinct", "refuse", "cutall":
 				default:
 					continue
 				}
